@@ -1385,6 +1385,8 @@ def orc_overwrite(case):
                 B.save(p, file_type=fmt, overwrite=True)
             else:
                 with open(p, 'r+b') as fh:
+                    if case.get('handle_pos') == 'end':      # e.g. the caller has just read the old content through this handle
+                        fh.seek(0, 2)
                     B.save(fh, file_type=fmt, overwrite=True)
             label = f'{kind} {fmt}/{target} overwrite=True on a file holding ' + {
                 'larger': 'an older, larger object', 'smaller': 'an older, smaller object', 'same': 'an equal object',
@@ -1945,6 +1947,11 @@ def tier_c(run, thorough):
                             else ('empty-file', 'other-format') if kind == 'temporal' else ('smaller',)):
                     bd.check(orc_overwrite, dict(kind=kind, fmt=fmt, target=target, old=old), 'existing-file-' + old,
                              function='remove_file' if target == 'file' else 'write_dict_hdf5')
+                if target == 'file':
+                    # the handle is positioned at the END of the existing file (as after reading it through this handle)
+                    for old in (('larger', 'smaller') if thorough or kind == 'rdms' else ('larger',)):
+                        bd.check(orc_overwrite, dict(kind=kind, fmt=fmt, target=target, old=old, handle_pos='end'),
+                                 'handle-positioned-at-end', function='remove_file')
     bd.done()
     bds.append(bd)
 
